@@ -103,7 +103,8 @@ def _inputs(case, Bsz):
     out = {}
     if k == "neuron":
         shape = tuple(case["neuron"]["shape"])
-        base = B.dyadic(seed, (T, Bsz) + shape, -40, 400, 8)
+        rng = np.random.Generator(np.random.PCG64(seed))
+        base = rng.uniform(-60.0, 900.0, size=(T, Bsz) + shape) * (rng.random(size=(T, Bsz) + shape) < 0.8)
         out["cur"] = torch.tensor(base, dtype=torch.float32)
     elif k == "synapse":
         shape = tuple(case["shape"])
@@ -111,7 +112,10 @@ def _inputs(case, Bsz):
         out["inj"] = torch.tensor(B.dyadic(seed + 1, (T, Bsz) + shape, -16, 16, 4), dtype=torch.float32)
         rng = np.random.Generator(np.random.PCG64(seed + 2))
         sel = rng.integers(0, 4 * (case["K"] + 1), size=(T, Bsz) + shape) / 4.0 * case["dt"]
-        out["sel"] = torch.tensor(np.minimum(sel, case["K"] * case["dt"]), dtype=torch.float32)
+        tol = case["syn"].get("tol", 0.0)
+        jitter = rng.choice([0.0, 0.0, 0.5 * tol, -0.5 * tol], size=sel.shape)
+        sel = np.clip(sel + jitter, 0.0, case["K"] * case["dt"])
+        out["sel"] = torch.tensor(sel, dtype=torch.float32)
     elif k == "connection":
         inshape, _ = B.conn_shapes(case["conn"])
         out["spk"] = torch.tensor(B.spikes_from(seed, T, (Bsz,) + inshape, case["rate"]))
@@ -267,16 +271,16 @@ def run_train(case):
 @st.composite
 def component_case(draw, tier="quick"):
     leg = draw(st.sampled_from(["neuron", "neuron", "synapse", "connection", "connection", "layer", "layer"]))
-    case = {"leg": leg, "dt": draw(st.sampled_from([1.0, 0.5])), "batch": draw(st.integers(2, 4)),
+    case = {"leg": leg, "dt": draw(st.sampled_from([1.0, 0.5, 0.1, 0.3, 1.3] if leg == "neuron" else [1.0, 0.5])), "batch": draw(st.integers(2, 4)),
             "steps": draw(st.integers(5, 20 if leg != "layer" else 10)), "sseed": draw(st.integers(0, 99999)),
             "rate": draw(st.sampled_from([0.3, 0.6])), "perm": draw(st.permutations([0, 1, 2, 3])), "exact": True}
     if leg == "neuron":
         case["neuron"] = {"cls": draw(st.sampled_from(B.NEURONS)), "shape": draw(st.sampled_from([[1], [3], [2, 2]])),
-                          "refrac": draw(st.sampled_from([0, 1, 2, 2.5]))}
+                          "refrac": draw(st.sampled_from([0, 1, 2, 3, 3, 2.5]))}
         case["refrac_lock"] = draw(st.sampled_from([None, True, False]))
     elif leg == "synapse":
         case["syn"] = {"cls": draw(st.sampled_from(B.SYNAPSES)), "q": 30.0, "interp": draw(st.sampled_from(["previous", "nearest"])),
-                       "tol": 1e-5, "inplace": draw(st.booleans())}
+                       "tol": draw(st.sampled_from([1e-5, 1e-3, 0.0])), "inplace": draw(st.booleans())}
         case["shape"] = draw(st.sampled_from([[1], [3], [2, 2]]))
         case["K"] = draw(st.integers(0, 4))
     elif leg == "connection":
@@ -318,11 +322,11 @@ def component_case(draw, tier="quick"):
 @st.composite
 def train_case(draw, tier="quick"):
     t = draw(st.sampled_from(["dense", "dense", "direct", "lateral", "conv"]))
-    K = draw(st.sampled_from([None, None, 2]))
-    cls = draw(st.sampled_from(["STDP", "TripletSTDP", "MSTDP", "MSTDPET", "DelayAdjustedSTDP", "LinearHomeostasis"]))
+    K = draw(st.sampled_from([None, 2, 3]))
+    cls = draw(st.sampled_from(["STDP", "STDP", "TripletSTDP", "MSTDP", "MSTDPET", "DelayAdjustedSTDP", "LinearHomeostasis"]))
     if cls == "DelayAdjustedSTDP":
         K = 2
-    delayed = K is not None and cls in ("STDP", "TripletSTDP", "MSTDP") and draw(st.booleans())
+    delayed = K is not None and cls in ("STDP", "TripletSTDP", "MSTDP") and draw(st.integers(0, 3)) > 0
     conn = {"type": t, "syn": {"cls": "DeltaCurrent", "q": 32.0, "tol": 1e-5}, "bias": False, "delay": K,
             "wseed": draw(st.integers(0, 9999)), "dseed": draw(st.integers(0, 9999))}
     if t == "dense":
